@@ -714,6 +714,16 @@ def check_map(ctx, where, index, map_, frames_results, gt_counts, policy, level,
             for r in ranked:
                 w, nb = tp_weight(ctx, r, lab, mode_name, thr, policy, aph)
                 boundary = boundary or nb
+                if aph and w:
+                    # the heading agreement of a TP standing flat on the ground, from the two orientations themselves
+                    want_w = ref.ref_heading_agreement(V.quat_of(r.estimated_object), V.quat_of(r.ground_truth_object))
+                    if want_w is None:
+                        ctx.skip("c04_heading_of_tilted_box")
+                    else:
+                        ctx.probe("c04_heading_weight_checked")
+                        if abs(want_w - w) > 1e-6:
+                            ctx.violate(prop, cp + "heading_agreement", "%s APH weight of a TP is %r, its heading agreement is %r" % (level, w, want_w),
+                                        {"est": V.quat_of(r.estimated_object), "gt": V.quat_of(r.ground_truth_object)}, index)
                 if w is None:
                     ignored += 1
                     w = 0.0
